@@ -834,18 +834,20 @@ class BaseWorkflow(object, metaclass=abc.ABCMeta):
             self.__check_finished(time, error_tol=error_tol)
 
     def __set_est_eft_data(self, time: int):
-        input_task_set = set()
+        # NOTE: insertion-ordered dicts are used instead of sets so that the visiting order (and
+        # with it the result on ties) depends on the order of task_list only, not on object hashes.
+        input_task_set = dict()
 
         # 1. Set the earliest finish time of head tasks.
         for task in self.task_list:
             task.est = time
             if len(task.input_task_list) == 0:
                 task.eft = time + task.remaining_work_amount
-                input_task_set.add(task)
+                input_task_set[task] = True
 
         # 2. Calculate PERT information of all tasks
         while len(input_task_set) > 0:
-            next_task_set = set()
+            next_task_set = dict()
             for input_task in input_task_set:
                 for next_task, dependency in input_task.output_task_list:
                     pre_est = next_task.est
@@ -873,13 +875,13 @@ class BaseWorkflow(object, metaclass=abc.ABCMeta):
                     if est >= pre_est:
                         next_task.est = est
                         next_task.eft = eft
-                    next_task_set.add(next_task)
+                    next_task_set[next_task] = True
 
             input_task_set = next_task_set
 
     def __set_lst_lft_criticalpath_data(self, time: int):
         # 1. Extract the list of tail tasks.
-        output_task_set = set(
+        output_task_set = dict.fromkeys(
             filter(lambda task: len(task.output_task_list) == 0, self.task_list)
         )
 
@@ -897,7 +899,7 @@ class BaseWorkflow(object, metaclass=abc.ABCMeta):
 
         # 3. Calculate PERT information of all tasks
         while len(output_task_set) > 0:
-            prev_task_set = set()
+            prev_task_set = dict()
             for output_task in output_task_set:
                 for prev_task, dependency in output_task.input_task_list:
                     pre_lft = prev_task.lft
@@ -925,7 +927,7 @@ class BaseWorkflow(object, metaclass=abc.ABCMeta):
                     if pre_lft < 0 or pre_lft >= lft:
                         prev_task.lst = lst
                         prev_task.lft = lft
-                    prev_task_set.add(prev_task)
+                    prev_task_set[prev_task] = True
 
             output_task_set = prev_task_set
 
